@@ -51,7 +51,8 @@ impl Tw {
             w.flush().unwrap();
         }
         self.k += 1;
-        let p = self.dir.join(format!("{}.{:04}.ndjson", self.module, self.k));
+        let mut p = self.dir.join(format!("{}.{:04}.ndjson", self.module, self.k));
+        while p.exists() { self.k += 1; p = self.dir.join(format!("{}.{:04}.ndjson", self.module, self.k)); }
         self.w = Some(BufWriter::new(File::create(p).unwrap()));
         self.n_in_chunk = 0;
     }
